@@ -1597,6 +1597,7 @@ func main() {
 	}
 	res.Set("seconds_per_place_summed_over_shards", secs)
 
+	runExtras(res)
 	places := []string{"matcher", "matcher-aggpath", "blacklist", "route", "dest", "agg", "aggregate-routing"}
 	floorQuick := map[string]int{"matcher": 20000, "matcher-aggpath": 10000, "blacklist": 1500, "route": 1500, "dest": 1500, "agg": 1500, "aggregate-routing": 1500}
 	for _, pl := range places {
